@@ -38,6 +38,16 @@ if TYPE_CHECKING:
 
 logger = logging.getLogger("asimap.client")
 
+
+####################################################################
+#
+def one_line(text: object) -> str:
+    """
+    The text of a response has to fit on one line, whatever it quotes: all
+    white space (CR and LF included) becomes single spaces.
+    """
+    return " ".join(str(text).split())
+
 # Local constants
 #
 CAPABILITIES = (
@@ -273,7 +283,10 @@ class BaseClientHandler:
             )
             if self.server and imap_command.command:
                 self.server.num_failed_commands[imap_command.command] += 1
-            result = f"{imap_command.tag} NO {e}\r\n"
+            # NOTE: The text may quote what the client sent us (eg: a mailbox
+            #       name given as a literal): it has to stay on one line.
+            #
+            result = f"{imap_command.tag} NO {one_line(e)}\r\n"
             await self.client.push(result)
             return
         except Bad as e:
@@ -282,7 +295,7 @@ class BaseClientHandler:
             )
             if self.server and imap_command.command:
                 self.server.num_failed_commands[imap_command.command] += 1
-            result = f"{imap_command.tag} BAD {e}\r\n"
+            result = f"{imap_command.tag} BAD {one_line(e)}\r\n"
             await self.client.push(result)
             return
         except TimeoutError:
@@ -295,7 +308,10 @@ class BaseClientHandler:
             )
             if self.server and imap_command.command:
                 self.server.num_failed_commands[imap_command.command] += 1
-            result = f"{imap_command.tag} BAD Command timed out: '{imap_command.qstr()}'\r\n"
+            result = (
+                f"{imap_command.tag} BAD Command timed out: "
+                f"'{one_line(imap_command.qstr())}'\r\n"
+            )
             try:
                 await self.client.push(result)
             except Exception:
@@ -329,7 +345,7 @@ class BaseClientHandler:
             #       so tell the client that we are hanging up on it. (And
             #       make sure the text of the exception stays on one line.)
             #
-            reason = " ".join(str(e).split())
+            reason = one_line(e)
             result = f"{imap_command.tag} BAD Unhandled exception: {reason}"
             try:
                 await self.client.push(
